@@ -85,6 +85,9 @@ func init() {
 				"sub": ugo.Map{"answer": &ugo.Function{Name: "answer", Value: func(args ...ugo.Object) (ugo.Object, error) { return ugo.Int(42), nil }},
 					"deep": ugo.Map{"f": &ugo.Function{Name: "f", Value: func(args ...ugo.Object) (ugo.Object, error) { return ugo.String("deep"), nil }}}},
 				"fns": ugo.Array{&ugo.Function{Name: "first", Value: func(args ...ugo.Object) (ugo.Object, error) { return ugo.Int(len(args)), nil }}},
+				// several values of one kind that has no native encoding (they go through gob), a builtin function
+				"e1": &ugo.Error{Name: "E1", Message: "m1"}, "e2": &ugo.Error{Name: "E2", Message: "m2"}, "e3": &ugo.Error{Name: "E3", Message: "m3"},
+				"blen": ugo.BuiltinObjects[ugo.BuiltinLen], "bstring": ugo.BuiltinObjects[ugo.BuiltinString],
 				// attribute names of every shape: empty, with spaces / quotes / non-ASCII / invalid UTF-8, long
 				"": ugo.Int(7), " ": ugo.String("space"), "a b\"c": ugo.Int(8), "\u00e9\xff": ugo.Int(9), strings.Repeat("k", 300): ugo.Int(10)})
 			var src string
@@ -110,7 +113,7 @@ func init() {
 			case "closure-free":
 				src = pre + "x := " + lit + "\nf := func() { return x }\nreturn f()"
 			case "builtin-module":
-				src = pre + "bm := import(\"bm\")\nks := []\nfor k, _ in bm { ks = append(ks, k) }\nreturn [bm.i, bm.f, bm.s, bm.b, bm.u, bm.c, bm.t, bm.a, bm.m, bm.fn(), bm.sub.answer(), bm.sub.deep.f(), bm.fns[0](1, 2), bm[\"\"], bm[\" \"], bm[\"a b\\\"c\"], bm[\"\\u00e9\\xff\"], bm[\"" + strings.Repeat("k", 300) + "\"], len(bm), sort(ks), " + lit + "]"
+				src = pre + "bm := import(\"bm\")\nks := []\nfor k, _ in bm { ks = append(ks, k) }\nreturn [bm.i, bm.f, bm.s, bm.b, bm.u, bm.c, bm.t, bm.a, bm.m, bm.fn(), bm.sub.answer(), bm.sub.deep.f(), bm.fns[0](1, 2), bm[\"\"], bm[\" \"], bm[\"a b\\\"c\"], bm[\"\\u00e9\\xff\"], bm[\"" + strings.Repeat("k", 300) + "\"], len(bm), sort(ks), [bm.e1.Message, bm.e2.Message, bm.e3.Name, string(bm.e2)], bm.blen(\"abc\"), bm.bstring(5), " + lit + "]"
 			}
 			r := N{"tok": c.Tok, "pos": c.Pos, "src": src, "ok": true}
 			func() {
